@@ -11,6 +11,7 @@ they are known findings, see known_findings.json.
 import DTML.Render
 import DTML.Props.C10
 import DTML.Props.C08
+import DTML.Props.C02
 set_option linter.unusedVariables false
 namespace DTML.Props.C05
 open DTML.Render
@@ -198,5 +199,11 @@ example : raisedCls (renderBlk env 20 (.with_ (.name "o".toList) false false [.v
     { stack := [.dict [("o".toList, secretObj)]] }).1 = some "Unauthorized".toList := by
   decide +kernel
 end Example
+
+/-! ### The guarded read of a client attribute is the one of the source (regenerated on every run, proved in Props/C02):
+the guard is asked inside `InstanceDict.__getitem__`, before the attribute is read, and a refusal propagates -/
+theorem gen_guarded_lookup_is_model (env : Env) (v : Val) (cache : List (Text × Val)) (key : Text) (tr : List Event) :
+    GenNs.instGetitemGen env v cache key tr = frameGet env (.inst v cache) key tr :=
+  C02.gen_instancedict_getitem_is_model env v cache key tr
 
 end DTML.Props.C05
